@@ -446,7 +446,14 @@ func otherPanicsRule(r *Run, rule string, m *lexerModel) {
 							r.Bad(rule, f.Name(), "panic("+short(w.Fset, x)+")", w.Pos(x.Pos()), "the lexer, the parser and the tree report what they cannot handle as an error; a panic takes Parse (and the process) down")
 						}
 					}
-					if cal := calleeOf(info, x); cal != nil && cal.Pkg() != nil && !strings.HasPrefix(cal.Pkg().Path(), modPath) && strings.HasPrefix(cal.Name(), "Must") {
+					constArgs := len(x.Args) > 0
+					for _, a := range x.Args {
+						if tv, okT := info.Types[a]; !okT || tv.Value == nil {
+							constArgs = false
+						}
+					}
+					// (on constant arguments the outcome is the same for every template: a pattern written in the source)
+					if cal := calleeOf(info, x); cal != nil && !constArgs && cal.Pkg() != nil && !strings.HasPrefix(cal.Pkg().Path(), modPath) && strings.HasPrefix(cal.Name(), "Must") {
 						r.Bad(rule, f.Name(), "call of "+cal.Pkg().Name()+"."+cal.Name(), w.Pos(x.Pos()), cal.Pkg().Name()+"."+cal.Name()+" panics when its argument is not well formed: on text that comes from the template Parse panics instead of returning a syntax error")
 					}
 				case *ast.IndexExpr:
